@@ -28,13 +28,15 @@ VARIABLES prog,      \* id of the program under execution
           doc,       \* the delivered document (classification)
           dec,       \* [verdict |-> "ok"|"err"|"none", part |-> index into prog.parts or 0, why |-> ..]
           ran,       \* handlers that ran since Deliver: seq of [part, name, kind]
-          res        \* "none" | "ok" | "err"
+          res,       \* "none" | "ok" | "err"
+          origin     \* who made the document: "chain" (anybody), or the remote helper of a method [part, name]
 
-rvars == <<prog, pv, stage, ep, doc, dec, ran, res>>
+rvars == <<prog, pv, stage, ep, doc, dec, ran, res, origin>>
 
 P == Programs[prog]       \* the elaborated program under execution
 EpKinds(q) == Range(q.ep_kinds)
 
+Chain == [part |-> "", name |-> ""]      \* the document comes from the chain (anybody), not from a remote helper
 NoDoc == [shape |-> "none", key |-> "", body |-> "none"]
 NoDec == [verdict |-> "none", part |-> 0, why |-> "none"]
 
@@ -61,7 +63,7 @@ AcceptingParts == {i \in DOMAIN pv : pv[i]}
 Expand ==
     /\ stage = "fresh"
     /\ stage' = IF P.accepted THEN "idle" ELSE "rejected"
-    /\ UNCHANGED <<prog, pv, ep, doc, dec, ran, res>>
+    /\ UNCHANGED <<prog, pv, ep, doc, dec, ran, res, origin>>
 
 (* ---- a document arrives at the entry point of kind k ------------------ *)
 Deliver(k, d) ==
@@ -69,7 +71,21 @@ Deliver(k, d) ==
     /\ k \in EpKinds(P)
     /\ stage' = "delivered"
     /\ ep' = k /\ doc' = d /\ pv' = <<>>
+    /\ dec' = NoDec /\ ran' = <<>> /\ res' = "none" /\ origin' = Chain
+    /\ UNCHANGED <<prog>>
+
+(* ---- a remote helper (executor / querier / instantiate builder) of method m builds the       *)
+(* ---- message and the chain delivers it to the target's entry point of that kind (C10)         *)
+RemoteDoc(m) == IF m.kind \in EnumKinds THEN [shape |-> "obj1", key |-> m.wire, body |-> "exact"]
+                ELSE [shape |-> "flat", key |-> m.kind, body |-> "exact"]
+RemoteSend(i, m) ==
+    /\ stage \in {"idle", "returned"}
+    /\ i \in 1..Len(P.parts) /\ m \in Range(P.parts[i].methods) /\ m.kind \in {"exec", "query", "instantiate"}
+    /\ m.kind \in EpKinds(P)
+    /\ stage' = "delivered"
+    /\ ep' = m.kind /\ doc' = RemoteDoc(m) /\ pv' = <<>>
     /\ dec' = NoDec /\ ran' = <<>> /\ res' = "none"
+    /\ origin' = [part |-> P.parts[i].id, name |-> m.name]
     /\ UNCHANGED <<prog>>
 
 (* ---- contract-level message: route by the published lists, first match - *)
@@ -91,7 +107,7 @@ WrapperDecode(o) ==
     /\ pv' = o
     /\ dec' = WrapperResult(P, ep, doc, o)
     /\ stage' = "decoded"
-    /\ UNCHANGED <<prog, ep, doc, ran, res>>
+    /\ UNCHANGED <<prog, ep, doc, ran, res, origin>>
 
 (* ---- struct messages (instantiate / migrate): the derive's own decoder  *)
 (* serde's treatment of absent / extra members is not modelled: any verdict *)
@@ -104,7 +120,7 @@ StructDecode(v) ==
     /\ stage = "delivered" /\ ep \in {"instantiate", "migrate"}
     /\ dec' = [verdict |-> v, part |-> IF v = "ok" THEN Len(P.parts) ELSE 0, why |-> "none"]
     /\ stage' = "decoded"
-    /\ UNCHANGED <<prog, pv, ep, doc, ran, res>>
+    /\ UNCHANGED <<prog, pv, ep, doc, ran, res, origin>>
 
 (* ---- dispatch: the match arm generated from the owning method ---------- *)
 Dispatch ==
@@ -116,14 +132,14 @@ Dispatch ==
        IN /\ ran' = Append(ran, [part |-> part.id, name |-> m.name, kind |-> m.kind])
           /\ res' = m.outcome
     /\ stage' = "ran"
-    /\ UNCHANGED <<prog, pv, ep, doc, dec>>
+    /\ UNCHANGED <<prog, pv, ep, doc, dec, origin>>
 
 Return ==
     /\ \/ stage = "ran"
        \/ stage = "decoded" /\ dec.verdict = "err"
     /\ res' = IF stage = "ran" THEN res ELSE "err"
     /\ stage' = "returned"
-    /\ UNCHANGED <<prog, pv, ep, doc, dec, ran>>
+    /\ UNCHANGED <<prog, pv, ep, doc, dec, ran, origin>>
 
 -----------------------------------------------------------------------------
 (* Properties, stated on behaviour -- separately from the mechanism above.  *)
@@ -156,6 +172,12 @@ C02_ExactlyOne ==
 
 (* C06 (design level): only emitted entry points receive documents *)
 C06_OnlyEmitted == stage \in {"delivered", "decoded", "ran", "returned"} => ep \in EpKinds(P)
+
+(* C10: what a remote helper builds is accepted by the target and runs the very method it was built for *)
+C10_RemoteRoutesBack ==
+    (stage = "returned" /\ origin # Chain) =>
+        /\ dec.verdict = "ok"
+        /\ Len(ran) = 1 /\ ran[1].part = origin.part /\ ran[1].name = origin.name
 
 (* every delivered document is answered (checked under fairness, no constraint) *)
 Answered == (stage = "delivered") ~> (stage = "returned")
